@@ -52,3 +52,13 @@ pub fn storage_lifetime(
 ) -> Option<Option<std::time::Duration>> {
     crate::comprash::ResponseCache::storage_lifetime(response)
 }
+
+/// [`Http1Body::discard_rest`](crate::application::Http1Body), which is crate-private, for harnesses that
+/// drive a request body over a scripted reader.
+pub async fn discard_rest<R: tokio::io::AsyncRead + Unpin>(
+    body: &mut crate::application::Http1Body<R>,
+    max: usize,
+    patience: std::time::Duration,
+) -> bool {
+    body.discard_rest(max, patience).await
+}
